@@ -2057,7 +2057,18 @@ pub fn assign_all(
                 rhs.push(evaluate(env, e)?);
             }
 
-            let rrhs = rhs.drain(rhs.len() - lhs.len() + si + 1..).collect();
+            // everything but the splat needs an element of its own
+            if rhs.len() + 1 < lhs.len() {
+                return Err(NErr::value_error(format!(
+                    "{}: expected at least {} ({}), got {} ({})",
+                    err_msg,
+                    lhs.len() - 1,
+                    CommaSeparated(lhs),
+                    rhs.len(),
+                    CommaSeparatedDebug(&rhs)
+                )));
+            }
+            let rrhs = rhs.drain(rhs.len() - (lhs.len() - si - 1)..).collect();
             let srhs = rhs.drain(si..).collect();
             assign_all_basic(env, &lhs[..si], rt, rhs, err_msg)?;
             match inner {
